@@ -681,7 +681,9 @@ def ops_phase(ctx, book, fut, mi, variant, tid0):
     res, dot = fut.result()
     ctx.add_tlc(f"ConfigOps (MaxItems={mi}, 4 sections x 3 keys x 2 values; set/add/remove/rewrite)", res)
     if res.coverage:
-        dead = [a for a in ("Set", "Add", "Remove", "Rewrite") if res.coverage.get(a, (0, 0))[1] == 0]
+        cov = {a: int(t) for a, _, t in re.findall(r"^<(\w+) line [^>]*>: (\d+):(\d+)", res.output, re.M)}
+        dead = [a for a in ("Set", "Add", "Remove", "Rewrite") if cov.get(a, 0) == 0]
+        ctx.cov["ops_action_coverage"] = {a: cov.get(a, 0) for a in ("Set", "Add", "Remove", "Rewrite")}
         if dead:
             raise MachineryError(f"ConfigOps: actions never taken (vacuous model): {dead}")
     ctx.log("ConfigOps model checked")
